@@ -646,6 +646,31 @@ class Bin(Factory, Container):
         """Get number of bins, consistent with SparselyBin and Categorize"""
         return self.num
 
+    def _bin_range(self, low=None, high=None):
+        """Indexes (minBin, maxBin) of the bins overlapping [low, high]; maxBin < minBin if there are none.
+
+        All range accessors (num_bins, bin_entries, bin_edges, bin_centers) share this, so that they
+        always describe the same bins.
+        """
+        if low is not None and high is not None and low > high:
+            raise RuntimeError(f"low {low} greater than high {high}")
+        last = len(self.values) - 1
+        # ranges that lie completely in the underflow or overflow region have no real index
+        if high is not None and high < self.low:
+            return 0, -1
+        if low is not None and low >= self.high:
+            return last + 1, last
+        # lowest edge
+        minBin = 0 if low is None or low < self.low else self.bin(low)
+        # highest edge
+        if high is None or high >= self.high:
+            maxBin = last
+        else:  # high < self.high and high >= self.low
+            maxBin = self.bin(high)
+            if np.isclose(high, self.low + self.bin_width() * maxBin):
+                maxBin -= 1
+        return minBin, maxBin
+
     def num_bins(self, low=None, high=None):
         """Returns number of bins of a given (sub-)range
 
@@ -659,32 +684,8 @@ class Bin(Factory, Container):
         # trivial cases first
         if low is None and high is None:
             return len(self.values)
-        # catch weird cases
-        if low is not None and high is not None:
-            if low > high:
-                raise RuntimeError(f"low {low} greater than high {high}")
-            if low < self.low and high < self.low:
-                # note: all these data end up in the underflow bin, with no real index
-                return 0
-            if low >= self.high and high >= self.high:
-                # note: all these data end up in the overflow bin, with no real index
-                return 0
-        # lowest edge
-        if low is None or low < self.low:
-            low = self.low
-        else:  # low >= self.low and low < self.high
-            minBin = self.bin(low)
-            low = self.low + self.bin_width() * minBin
-        # highest edge
-        if high is None or high >= self.high:
-            high = self.high
-        else:  # high < self.high and high >= self.low
-            maxBin = self.bin(high)
-            if np.isclose(high, self.low + self.bin_width() * maxBin):
-                maxBin -= 1
-            high = self.low + self.bin_width() * (maxBin + 1)
-        # number of bins. use np.round to correct for machine level rounding errors
-        return int(np.round((high - low) / self.bin_width()))
+        minBin, maxBin = self._bin_range(low, high)
+        return max(0, maxBin - minBin + 1)
 
     def bin_width(self):
         """Returns bin width"""
@@ -704,30 +705,11 @@ class Bin(Factory, Container):
         # trivial case
         if low is None and high is None and len(xvalues) == 0:
             return np.array([x.entries for x in self.values])
-        # catch weird cases
-        if low is not None and high is not None and len(xvalues) == 0:
-            if low > high:
-                raise RuntimeError(f"low {low} greater than high {high}")
-            if low < self.low and high < self.low:
-                # note: all these data end up in the underflow bin
-                return np.array([])
-            if low >= self.high and high >= self.high:
-                # note: all these data end up in the overflow bin
-                return np.array([])
         # entries at request list of x-values
-        elif len(xvalues) > 0:
+        if len(xvalues) > 0:
             entries = [self.values[self.bin(x)].entries if self.bin(x) in self.indexes else 0.0 for x in xvalues]
             return np.array(entries)
-        # lowest edge
-        # low >= self.low and low < self.high
-        minBin = 0 if low is None or low < self.low else self.bin(low)
-        # highest edge
-        if high is None or high >= self.high:
-            maxBin = len(self.values) - 1
-        else:  # high < self.high and high >= self.low
-            maxBin = self.bin(high)
-            if np.isclose(high, self.low + self.bin_width() * maxBin):
-                maxBin -= 1
+        minBin, maxBin = self._bin_range(low, high)
         return np.array([self.values[i].entries for i in range(minBin, maxBin + 1)])
 
     def bin_edges(self, low=None, high=None):
@@ -738,36 +720,13 @@ class Bin(Factory, Container):
         :returns: numpy array with bin edges for selected range
         :rtype: numpy.array
         """
-        num_bins = self.num_bins(low, high)
         # trivial cases first
         if low is None and high is None:
-            return np.linspace(self.low, self.high, num_bins + 1)
-        # catch weird cases
-        if low is not None and high is not None:
-            if low > high:
-                raise RuntimeError(f"low {low} greater than high {high}")
-            if low < self.low and high < self.low:
-                # note: all these data end up in the underflow bin
-                return np.linspace(self.low, self.low, num_bins + 1)
-            if low >= self.high and high >= self.high:
-                # note: all these data end up in the overflow bin
-                return np.linspace(self.high, self.high, num_bins + 1)
-        # lowest edge
-        if low is None or low < self.low:
-            low = self.low
-        else:  # low >= self.low and low < self.high
-            minBin = self.bin(low)
-            low = self.low + self.bin_width() * minBin
-        # highest edge
-        if high is None or high >= self.high:
-            high = self.high
-        else:  # high < self.high and high >= self.low
-            maxBin = self.bin(high)
-            if np.isclose(high, self.low + self.bin_width() * maxBin):
-                maxBin -= 1
-            high = self.low + self.bin_width() * (maxBin + 1)
-        # new low and high values reset, so redo num_bins
-        num_bins = self.num_bins(low + np.finfo(float).eps, high - np.finfo(float).eps)
+            return np.linspace(self.low, self.high, len(self.values) + 1)
+        minBin, maxBin = self._bin_range(low, high)
+        num_bins = max(0, maxBin - minBin + 1)
+        low = self.low + self.bin_width() * minBin
+        high = self.low + self.bin_width() * (minBin + num_bins)
         return np.linspace(low, high, num_bins + 1)
 
     def bin_centers(self, low=None, high=None):
@@ -782,28 +741,8 @@ class Bin(Factory, Container):
         if low is None and high is None:
             # (one centre per bin: np.arange over the float width can yield one element too many)
             return self.low + (np.arange(len(self.values)) + 0.5) * self.bin_width()
-        # catch weird cases
-        if low is not None and high is not None:
-            if low > high:
-                raise RuntimeError(f"low {low} greater than high {high}")
-            if low < self.low and high < self.low:
-                # note: all these data end up in the underflow bin
-                return np.array([])
-            if low >= self.high and high >= self.high:
-                # note: all these data end up in the overflow bin
-                return np.array([])
-        # lowest edge
-        # low >= self.low and low < self.high
-        minBin = 0 if low is None or low < self.low else self.bin(low)
-        # highest edge
-        if high is None or high >= self.high:
-            maxBin = len(self.values) - 1
-        else:  # high < self.high and high >= self.low
-            maxBin = self.bin(high)
-            if np.isclose(high, self.low + self.bin_width() * maxBin):
-                maxBin -= 1
-
-        return self.low + (np.linspace(minBin, maxBin, maxBin - minBin + 1) + 0.5) * self.bin_width()
+        minBin, maxBin = self._bin_range(low, high)
+        return self.low + (np.arange(minBin, maxBin + 1) + 0.5) * self.bin_width()
 
     def _center_from_key(self, idx):
         return (idx + 0.5) * self.bin_width() + self.low
